@@ -361,6 +361,20 @@ func (e *Engine) callEffect(c *ssa.CallCommon, res *effSet) {
 		res.add(e.effects(v.Fn.(*ssa.Function)))
 		return
 	}
+	// call through a local function variable that denotes one func literal
+	if u, ok := c.Value.(*ssa.UnOp); ok {
+		var mc *ssa.MakeClosure
+		switch x := u.X.(type) {
+		case *ssa.Alloc:
+			mc = uniqueClosureStore(x)
+		case *ssa.FreeVar:
+			mc = closureOfFreeVar(x)
+		}
+		if mc != nil {
+			res.add(e.effects(mc.Fn.(*ssa.Function)))
+			return
+		}
+	}
 	// call through a package-level func variable with a `var:NAME` contract
 	if u, ok := c.Value.(*ssa.UnOp); ok {
 		if g, ok := u.X.(*ssa.Global); ok && g.Pkg != nil {
